@@ -568,7 +568,8 @@ func loRequire(L *LState) int {
 		L.Push(lv)
 		return 1
 	}
-	loaders, ok := L.GetField(L.Get(RegistryIndex), "_LOADERS").(*LTable)
+	// the searchers are those of package.loaders as it is now (a script may have replaced the table)
+	loaders, ok := L.GetField(packageTable(L), "loaders").(*LTable)
 	if !ok {
 		L.RaiseError("package.loaders must be a table")
 	}
